@@ -221,6 +221,11 @@ func writeShardsFn(dir, kind, require, caseType, fn string, terms []string, shar
 		sb.WriteString("Definition cases : list " + caseType + " := [\n")
 		sb.WriteString(strings.Join(terms[lo:hi], ";\n"))
 		sb.WriteString("\n].\nDefinition M := Eval vm_compute in " + fn + " cases.\nPrint M.\n")
+		if kind == "app" && k == 0 && len(appDistrTerms) > 0 {
+			// the distributor's half of the same blocks against AppBlock.v (AppCheck.v)
+			sb.WriteString("From C4E Require Import AppCheck.\nDefinition dcases : list abcase := [\n" + strings.Join(appDistrTerms, ";\n") +
+				"\n].\nDefinition D := Eval vm_compute in abmismatches dcases.\nPrint D.\n")
+		}
 		if require == "Distributor" {
 			// the credited-amounts machine next to the model on the same cases (LedgerCheck.v)
 			sb.WriteString("From C4E Require Import LedgerCheck.\nDefinition L := Eval vm_compute in ledger_disagreements cases.\nPrint L.\n")
